@@ -38,7 +38,9 @@ def oracle(case, recs, out, stats):
     plain = X.plain_world(case)
     for k, rec in enumerate(recs):
         if rec["op"][0] != "eval":
-            plain.apply_edit(rec["op"], rec["impl"] == "ok")
+            plain.apply_op(rec["op"], rec["impl"] == "ok")
+            if rec["op"][0] in ("copycell", "copyspace") and rec["impl"] == "ok":
+                _fresh_copy_holds_inputs_only(case, k, recs, out, stats)
             continue
         a = rec["impl"]
         if not a.startswith("ok"):
@@ -72,6 +74,29 @@ def oracle(case, recs, out, stats):
                      X.case_json(dict(case, ops=case["ops"][:k + 1])), key=key)
     _spellings(case, out, stats)
     return hit_cache and called
+
+
+def _fresh_copy_holds_inputs_only(case, k, recs, out, stats):
+    """an element nobody calculated or assigned in the new space holds no value there: right after a copy is taken, the
+    copy holds the ASSIGNED values of its source (as inputs) and nothing else - whatever the source had calculated"""
+    from ..execworld import COPY_BASE
+    op = recs[k]["op"]
+    before = recs[k - 1]["obs"]["values"][0].split()[1:] if k else []
+    after = recs[k]["obs"]["values"][0].split()[1:]
+    src_inputs = {x.split("=")[0]: x.split("=")[1] for x in before if x.endswith("I")}
+    for x in after:
+        node, v = x.split("=")
+        cid = int(node.split("[")[0])
+        src = int(op[1]) if op[0] == "copycell" and cid == int(op[3]) else cid - COPY_BASE if (
+            op[0] == "copyspace" and cid >= COPY_BASE) else None
+        if src is None:
+            continue
+        stats["oracle_copied_elements"] += 1
+        if src_inputs.get("%d[%s" % (src, node.split("[", 1)[1])) != v:
+            out.fail("right after %s the copy holds %s, which nobody assigned (assigned values of the source: %s)" % (
+                " ".join(op), x, sorted(n for n in src_inputs if n.startswith("%d[" % src))),
+                X.case_json(dict(case, ops=case["ops"][:k + 1])))
+            return
 
 
 def _fresh_eval(case, k):
@@ -268,8 +293,17 @@ def name_resolution(out, stats):
         close_all()
 
 
+# random programs with copies (implementation-only vocabulary): cells in both spaces, Cells.copy / UserSpace.copy at any
+# point of the history, references changed / defined in the spaces afterwards, the copies asked and edited like cells
+CFG_COPY = dict(CFG, space_p=0.4, default_p=0.0,
+                weights=dict(CFG["weights"], copycell=0.9, copyspace=0.35, setref=1.0, shadow=0.7, unshadow=0.2))
+
+
 def run(ctx, out):
-    stats = X.run_family(ctx, out, CFG, oracle, 150, 2500, structured=default_call_cases())
+    extra = [X.gen_case(ctx.rng("copy", i), CFG_COPY) for i in range(ctx.n(25, 400))]
+    for i, c in enumerate(extra):
+        c["label"] = "copies-random/%d" % i
+    stats = X.run_family(ctx, out, CFG, oracle, 150, 2500, structured=default_call_cases() + X.copy_cases() + extra)
     name_resolution(out, stats)
     out.coverage["input_distribution"]["name_resolution_scenarios"] = stats["name_resolution_scenarios"]
     out.assumptions.append("Python's own evaluation of arithmetic and inspect.Signature.bind are exercised, not modelled")
